@@ -522,7 +522,7 @@ func monitorAdmission(o *rec) {
 			if lib.Thorough() || rng.Intn(8) == 0 {
 				jobs = append(jobs, c)
 			}
-			if !r.Mismatch && (lib.Thorough() && rng.Intn(2) == 0 || rng.Intn(24) == 0) {
+			if !r.Mismatch && (lib.Thorough() || rng.Intn(24) == 0) {
 				d := r
 				d.Transport = "tcp-switch"
 				jobs = append(jobs, d)
